@@ -191,19 +191,19 @@ func functions() []fn {
 			return xofsm.Spec{New: func() xofsm.Inst { return xofInst{xof.SHAKE256.New()} }, Ref: xShake256, Rate: 136, Big: 40}
 		}},
 		// circl wraps x/crypto's BLAKE2X, which is also the oracle: only the chunking / clone / reset relations carry weight here
-		{name: "xof/BLAKE2XB(same-library-oracle)", cost: 2, mk: func(t *rapid.T) xofsm.Spec {
+		{name: "xof/BLAKE2XB-same-library-oracle", cost: 2, mk: func(t *rapid.T) xofsm.Spec {
 			return xofsm.Spec{New: func() xofsm.Inst { return xofInst{xof.BLAKE2XB.New()} }, Ref: refBlake2xb, Rate: 128, Big: 40}
 		}},
-		{name: "xof/BLAKE2XS(same-library-oracle)", cost: 2, mk: func(t *rapid.T) xofsm.Spec {
+		{name: "xof/BLAKE2XS-same-library-oracle", cost: 2, mk: func(t *rapid.T) xofsm.Spec {
 			return xofsm.Spec{New: func() xofsm.Inst { return xofInst{xof.BLAKE2XS.New()} }, Ref: refBlake2xs, Rate: 64, Big: 40}
 		}},
 		{name: "xof/K12D10", cost: 1, mk: func(t *rapid.T) xofsm.Spec {
 			return xofsm.Spec{New: func() xofsm.Inst { return xofInst{xof.K12D10.New()} }, Ref: func(m []byte, n int) []byte { return keccak.KT128(m, nil, n) },
 				Rate: 168, Big: 300, Lanes: pubLanes(), Tail: 1}
 		}},
-		{name: "k12/NewDraft10(ctx)", cost: 1, mk: func(t *rapid.T) xofsm.Spec {
+		{name: "k12/NewDraft10-ctx", cost: 1, mk: func(t *rapid.T) xofsm.Spec {
 			ctx := drawCtx(t)
-			vlib.Class("k12/NewDraft10(ctx)", ctxClass(len(ctx)))
+			vlib.Class("k12/NewDraft10-ctx", ctxClass(len(ctx)))
 			return xofsm.Spec{New: func() xofsm.Inst { s := k12.NewDraft10(ctx); return k12Inst{&s} }, Ref: func(m []byte, n int) []byte { return keccak.KT128(m, ctx, n) },
 				Rate: 168, Big: 300, Lanes: pubLanes(), Tail: len(ctx) + len(keccak.LengthEncode(uint64(len(ctx))))}
 		}},
@@ -227,7 +227,7 @@ func TestC15Histories(t *testing.T) {
 	for _, f := range functions() {
 		f := f
 		t.Run(f.name, func(t *testing.T) {
-			vlib.Check(t, vlib.N(260, 1200)/f.cost, func(t *rapid.T) {
+			vlib.Check(t, vlib.N(260, 1000)/f.cost, func(t *rapid.T) {
 				sp := f.mk(t)
 				sp.Sub = f.name
 				sp.Key = "C15/" + f.name
@@ -568,13 +568,16 @@ func TestC15ExpanderAbort(t *testing.T) {
 		}
 		vlib.NonTrivial(sub, "xmd:ell>255⇒abort", []byte(md.name))
 	}
+xofLoop:
 	for _, x := range xofs {
 		for _, n := range []int{65536, 65537, 70000} {
 			var out []byte
 			p, _ := vlib.Catch(func() { out = expander.NewExpanderXOF(x.id, 128, []byte("dst")).Expand([]byte("m"), uint(n)) })
 			vlib.Eval(sub)
 			if p == nil {
-				vlib.ReportDirect(t, "C15/expander/xof/len>65535-not-refused", fmt.Sprintf("%s: Expand(n=%d) returned %d bytes (the 2-byte length field wraps to %d); RFC 9380 §5.3.2 step 1 says abort and the doc comment of Expand says it panics", x.name, n, len(out), n&0xffff), map[string]interface{}{"xof": x.name, "n": n})
+				if !vlib.ReportDirect(t, "C15/expander/xof/len>65535-not-refused", fmt.Sprintf("%s: Expand(n=%d) returned %d bytes (the 2-byte length field wraps to %d); RFC 9380 §5.3.2 step 1 says abort and the doc comment of Expand says it panics", x.name, n, len(out), n&0xffff), map[string]interface{}{"xof": x.name, "n": n}) {
+					break xofLoop // one replay per finding key is enough
+				}
 				continue
 			}
 			vlib.NonTrivial(sub, "xof:len>65535⇒abort", []byte(x.name), []byte(fmt.Sprint(n)))
